@@ -138,3 +138,48 @@ Proof.
   inversion H as [|? ? He Hes]; subst. apply forallb_forall. intros x Hx.
   rewrite Forall_forall in Hes. rewrite (Hes x Hx). apply Nat.eqb_refl.
 Qed.
+
+(* ------------------------------------------------------------------ pending (uncommitted) deletes and
+   merges of committed segments.  Whoever proposes the merge (IndexWriter::merge or the merge policy in
+   consider_merge_options), a merge of COMMITTED segments gets the LAST COMMIT's opstamp as target. *)
+Theorem committed_merge_target policy srcs s :
+  srcs <> [] ->
+  policy && existsb (in_merge s) srcs = false ->
+  contains_all (w_unc s) srcs = false -> contains_all (w_com s) srcs = true ->
+  w_merges (start_merge policy srcs s) =
+  w_merges s ++ [mkRunning (w_epoch s) srcs (do_merge (w_queue s) (w_copstamp s) (w_next_seg s) (get_all (w_com s) srcs))].
+Proof.
+  intros Hne Hin Hu Hc. unfold start_merge. destruct srcs as [|i srcs]; [congruence|].
+  rewrite Hin, Hu, Hc. cbn [orb negb andb]. rewrite andb_false_r. reflexivity.
+Qed.
+
+Lemma consumed_pending q c cop :
+  (forall d, In d (skipn c q) -> (cop <= del_op d)%N) -> consumed q c cop = [].
+Proof.
+  unfold consumed. intros H. destruct (skipn c q) as [|d r]; [reflexivity|]. cbn [take_upto].
+  assert (Hd : (cop <= del_op d)%N) by (apply H; now left).
+  replace (N.ltb (del_op d) cop) with false; [reflexivity|]. symmetry. apply N.ltb_ge. exact Hd.
+Qed.
+
+(* With that target, deletes that are still pending (every operation of the queue beyond the sources'
+   cursor is stamped at or after the last commit) are NOT applied by the merge: the merged entry holds
+   all documents of its sources, keeps their cursor (so the pending deletes are applied at the next
+   commit and forgotten by a rollback), and end_merge's reconciliation leaves it alone. *)
+Theorem committed_merge_ignores_pending q cop seg es c :
+  es <> [] ->
+  Forall (fun e => e_cursor e = c) es ->
+  (forall d, In d (skipn c q) -> (cop <= del_op d)%N) ->
+  do_merge q cop seg es =
+    (if forallb (fun e => negb (nonempty e)) es then None
+     else Some (mkEntry seg (concat (map e_docs es)) c)) /\
+  reconcile q cop (mkEntry seg (concat (map e_docs es)) c) = mkEntry seg (concat (map e_docs es)) c.
+Proof.
+  intros Hne Hc Hp. split.
+  - unfold do_merge. destruct es as [|e0 es0] eqn:Ees; [congruence|]. rewrite <- Ees in *.
+    assert (Hid : map (advance q cop) es = es).
+    { clear Hne Ees. induction Hc as [|e es He _ IH]; [reflexivity|]. cbn [map]. rewrite IH. f_equal.
+      apply advance_nothing. rewrite He. now apply consumed_pending. }
+    rewrite Hid. destruct (forallb (fun e => negb (nonempty e)) es); [reflexivity|].
+    f_equal. f_equal. rewrite Ees. cbn [hd]. rewrite Ees in Hc. now inversion Hc.
+  - rewrite reconcile_is_advance. apply advance_nothing. cbn [e_cursor]. now apply consumed_pending.
+Qed.
